@@ -71,6 +71,12 @@ class GraphQLSyntaxError(GraphQLResponseError):
         self._highlighted = None  # type: Optional[str]
 
     @property
+    def _position_in_source(self) -> int:
+        # The lexer reports some errors at the end of input one character past
+        # the end of the source, make sure we can always render a location.
+        return max(0, min(self.position, len(self.source)))
+
+    @property
     def highlighted(self) -> str:
         """
         Message followed by the detailed location location of the error.
@@ -78,7 +84,7 @@ class GraphQLSyntaxError(GraphQLResponseError):
         if self._highlighted is not None:
             return self._highlighted
 
-        highlight = highlight_location(self.source, self.position)
+        highlight = highlight_location(self.source, self._position_in_source)
         self._highlighted = "%s %s" % (self.message, highlight)
         return self._highlighted
 
@@ -86,7 +92,7 @@ class GraphQLSyntaxError(GraphQLResponseError):
         return self.highlighted
 
     def to_dict(self) -> Dict[str, Any]:
-        line, col = index_to_loc(self.source, self.position)
+        line, col = index_to_loc(self.source, self._position_in_source)
         return {
             "message": str(self),
             "locations": [{"line": line, "columne": col}],
